@@ -40,6 +40,9 @@ def run(ctx):
     n = efreelist.check_count_bookkeeping(ctx, F)
     efreelist.check_terminal_gc(ctx, F)
     ecfg.check_slab_data_type(ctx, F)
+    ctx.explain("E-LIN.forget: where the managers dispose of an owned edge by hand (mem::forget + explicit release), every "
+                "path that forgets the edge also releases the reference.")
+    elin.check_forget(ctx, F)
     ctx.explain("E-DBG: no side effect (atomic read-modify-write, store, container mutation, assignment) is evaluated inside a "
                 "debug assertion; with debug assertions off it would not happen (225 debug-only blocks inspected).")
     n = edbg.run(ctx, F)
